@@ -6,6 +6,7 @@ set -u
 id=$1; src=$2; shift 2; props="$@"
 dst=/verif/seeded/$id; mkdir -p $dst
 cp $src/patch.diff $dst/patch.diff; cp $src/demo.rs $dst/demo.rs; cp $src/meta.json $dst/agent_meta.json 2>/dev/null
+if [ -f /tmp/confirm_$id ]; then read suite_fail with_rc without_rc < /tmp/confirm_$id; else
 wt=/tmp/ev_$id; rm -rf $wt; git -C /repo worktree prune; git -C /repo worktree add -q --detach $wt HEAD || exit 3
 export CARGO_TARGET_DIR=$wt/target CARGO_NET_OFFLINE=true
 cd $wt
@@ -27,6 +28,9 @@ else
   cargo test --offline $extra --test demo_seed >/tmp/ev_$id.without.log 2>&1; without_rc=$?
 fi
 cd /verif; git -C /repo worktree remove --force $wt; rm -rf $wt
+fi
+# PHASE=confirm: only the scratch confirmation (parallelisable, does not touch /repo); a later plain call reuses /tmp/confirm_<id>
+if [ "${PHASE:-}" = confirm ]; then echo "$suite_fail $with_rc $without_rc" > /tmp/confirm_$id; echo "seed $id confirm: $suite_fail $with_rc $without_rc"; exit 0; fi
 echo "seed $id: suite_failing_groups_with_patch=$suite_fail demo_rc_with_patch=$with_rc demo_rc_without_patch=$without_rc"
 # run the checks against the patched /repo
 git -C /repo apply $dst/patch.diff || { echo "cannot apply to /repo"; exit 5; }
